@@ -232,7 +232,7 @@ def big_case(draw):
 
 def _run_hyp(arg):
     seed_value, n = arg
-    acc = Acc()
+    acc = runner.track(Acc())
     runner.drive(big_case(), lambda case: acc.merge(_run_chunk([case])), n, seed_value)
     return acc
 
